@@ -5,4 +5,5 @@ f3_0:
   ret
   call f26_0
   call f11_0
+  mov wvsv1(%rip),%rax
   ret
